@@ -9,8 +9,9 @@
      Updater::commit               every cache entry is written to the table (insert overwrites) and
                                    its (script, outpoint) pair is inserted in the multimap
      src/index.rs Index::get_address_info   the outpoints listed under a script
-   Every block is followed by a commit (how commits are batched is property C12's subject), so the
-   cache is empty at the start of a block.  Entries are (value, script id); sat ranges and the
+   Commits happen after an arbitrary subset of the blocks ([sched]: commit after the block or not;
+   blocks beyond the schedule are committed, so the empty schedule commits after every block).
+   Entries are (value, script id); sat ranges and the
    null-outpoint pseudo entry (listed under the empty script when sats are indexed and some were
    lost) are left out.
    Panic tags: 2 input not in the UTXO set, 5 "script pubkey entry not found".
@@ -32,6 +33,7 @@ Definition mm_insert (p : N * outpoint) (mm : list (N * outpoint)) : list (N * o
   if mm_mem p mm then mm else p :: mm.
 
 Record astate := mkA {
+  cache : amap;                      (* utxo_cache: outputs created since the last commit *)
   table : amap;                      (* OUTPOINT_TO_UTXO_ENTRY: value and script per unspent output *)
   mm : list (N * outpoint);          (* SCRIPT_PUBKEY_TO_OUTPOINT *)
   shadowed : bool                    (* ghost, see above *)
@@ -82,24 +84,29 @@ Fixpoint flush (c : amap) (tb : amap) (m : list (N * outpoint)) : amap * list (N
   | (k, (v, s)) :: r => flush r (aset op_eqb k (v, s) tb) (mm_insert (s, k) m)
   end.
 
-Definition a_block (st : astate) (b : list tx) : Res astate :=
+Definition a_block (commit : bool) (st : astate) (b : list tx) : Res astate :=
   match b with
-  | [] => Ok st
+  | [] =>
+    if commit then let '(tb, m) := flush (cache st) (table st) (mm st) in Ok (mkA [] tb m (shadowed st))
+    else Ok st
   | cb :: rest =>
-    do w1 <- a_txs rest (mkW [] (table st) (mm st) (shadowed st));
+    do w1 <- a_txs rest (mkW (cache st) (table st) (mm st) (shadowed st));
     do w2 <- a_tx true cb w1;
-    let '(tb, m) := flush (w_cache w2) (w_table w2) (w_mm w2) in
-    Ok (mkA tb m (w_shadow w2))
+    if commit then
+      let '(tb, m) := flush (w_cache w2) (w_table w2) (w_mm w2) in Ok (mkA [] tb m (w_shadow w2))
+    else Ok (mkA (w_cache w2) (w_table w2) (w_mm w2) (w_shadow w2))
   end.
 
-Fixpoint a_run_from (st : astate) (c : list (list tx)) : Res astate :=
+Fixpoint a_run_from (sched : list bool) (st : astate) (c : list (list tx)) : Res astate :=
   match c with
   | [] => Ok st
-  | b :: r => do st' <- a_block st b; a_run_from st' r
+  | b :: r =>
+    let '(cm, sched') := match sched with [] => (true, []) | x :: y => (x, y) end in
+    do st' <- a_block cm st b; a_run_from sched' st' r
   end.
 
-Definition a_init : astate := mkA [] [] false.
-Definition a_run (c : list (list tx)) : Res astate := a_run_from a_init c.
+Definition a_init : astate := mkA [] [] [] false.
+Definition a_run (sched : list bool) (c : list (list tx)) : Res astate := a_run_from sched a_init c.
 
 (* ------------------------------------------------------------------ Spec: the unspent outputs *)
 
@@ -128,7 +135,7 @@ Definition op_pair_le (a b : N * outpoint) : bool :=
   orb (fst a <? fst b) (andb (fst a =? fst b) (op_le (snd a) (snd b))).
 
 Definition run_C17 (inp : list Z) : list Z :=
-  match a_run (fst (read_chain inp)) with
+  match a_run [] (fst (read_chain inp)) with
   | Ok st =>
     let es := isort (fun a b => op_le (fst a) (fst b)) (table st) in
     let ps := isort op_pair_le (mm st) in
